@@ -217,4 +217,24 @@ example : (walkRoot false tBig).map Node.id = [1, 2, 5, 6, 8, 9] := by decide
 example : (scopeOf tBig).length = 36 ∧ (scopeOf tBig).lookup 29 = some 1 ∧ (scopeOf tBig).lookup 36 = some 1 ∧
     (scopeOf tBig).lookup 33 = some 26 ∧ (scopeOf tBig).lookup 30 = some 27 ∧ (scopeOf tBig).lookup 6 = some 0 := by decide
 
+/-! ### type parameters that are not the walk root's own (`type A[T: B] = v` in a def body) -/
+
+/-- `def f[G: GB](): type A[T: B] = v`  (names: f0 G1 GB2 A3 T4 B5 v6) -/
+def tAlias : Node :=
+  .mk 0 .module .plain [] [
+    .mk 1 .funcdef .plain [0] [
+      .mk 2 .tparam .tparam [1] [nm 3 .nameLoad 2 .bound],
+      .mk 4 .arguments .args [] [],
+      .mk 5 .other .body [] [nm 6 .nameStore 3, .mk 7 .tparam .tparam [4] [nm 8 .nameLoad 5 .bound], nm 9 .nameLoad 6]]]
+
+def tAlias_f : Node := match tAlias with | .mk _ _ _ _ (f :: _) => f | n => n
+
+/-- the bound `GB` of the def's own type parameter is outside its scope, the bound `B` of the alias' type parameter - an
+ordinary statement of the body - is inside: `stack_type_param` must not stop at a type parameter whose parent is not the
+walk root -/
+example : goodRoot tAlias_f = true ∧ (walkRoot false tAlias_f).map Node.id = [2, 4, 5, 6, 7, 8, 9] ∧
+    (walkRootB false tAlias_f).map Node.id = [5, 9, 7, 8, 6, 4, 2] ∧
+    (symbols tAlias_f).load = [5, 6] ∧ (symbols tAlias_f).store = [1, 3, 4] ∧
+    (walkRoot false tAlias).map Node.id = [1, 3] := by decide
+
 end Pfst.C16
